@@ -8,6 +8,21 @@ CHECKS = {
    text="Every well-typed term of family F (all expression forms and type constructors) up to the stated depth is compiled by the real pipeline and executed (satisfy, encode, decode, Bit Machine) on every witness assignment of its (small) witness space or of a complete boundary product; the exact value is pinned through an EXPECT witness and compared with reference evaluator R2 (success with the right value, failure with neighbouring values, failure whenever R2 panics), with debug symbols off and on. Exhaustive below the bound, no sampling.",
    note="Trusted: simplicity-lang 0.4.0 (decoder, type inference, Bit Machine, C jets), rustc, the harness's R2/R3/R5 models. Small-scope: nothing is claimed for terms deeper than the bound or values outside the boundary alphabets.",
    ref="§6-C01"),
+ "C07": dict(
+   technique="bounded-exhaustive enumeration of types, values and ordered cast pairs on the real code, compared with layout model R3 by Merkle root / value tree",
+   text="Every type of the stated universe (all constructors to depth 2, thorough 3; array sizes 0..17 and selected large ones; list bounds 2..512) is converted by the real StructuralType::from and compared with the documented layout (model R3) by type Merkle root; every value of a complete value alphabet per type is converted, compared node by node with R3's value tree and reconstructed; every ordered pair of a cast-type set containing each row of the book's cast table is compiled (accepted iff equal layout) and run on every value with the expected re-read value pinned.",
+   note="Trusted: simplicity-lang Final/Value primitives and tmr(); R3 written from book/src/type_casting.md. Large integer domains are covered by a fixed boundary alphabet, enumerated completely.",
+   ref="§6-C07"),
+ "C11": dict(
+   technique="bounded-exhaustive enumeration of (literal text, type) states on the real parser/compiler, compared with literal model R4",
+   text="All widths x three notations x the full value alphabet (all values for N<=8, every 2^k-1/2^k/2^k+1, powers of ten, carry patterns, 2^N-1/2^N/2^N+1) x every underscore placement, leading zeros, digit-less and over/under-long forms, plus hex at [u8;n] for n in 0..33,64: acceptance of `let x: T = LIT;`, the parsed value against the Rust constructors, a run-time comparison against a constructor-built witness and print->parse of the value are each compared with R4.",
+   note="R4 written from C11's statement; value parser judged on acceptance only through whole programs because Value::parse_from_str parses a prefix of its input.",
+   ref="§6-C11"),
+ "C15": dict(
+   technique="bounded-exhaustive enumeration of values, types and name->value maps through the real printers and parsers (round-trip oracle)",
+   text="Every value of a complete per-type alphabet over a type universe built to stress the printer's hex shortcut (byte arrays of every length 0..64, nested / adjacent byte arrays, sub-byte integers, u128/u256, empty and singleton containers, depth <= 3), every type of C07's universe, and every map of the stated finite family (0..6 names from a reserved-word-derived identifier pool) are printed and parsed back (text module and JSON); module printing is compared over all insertion orders and duplicate names must be rejected.",
+   note="Values and maps are built with the Rust constructors; equality is the library's own PartialEq on Value / maps.",
+   ref="§6-C15"),
 }
 
 NOT_BUILT_REASON = "check not built yet in this round (planned as bounded-exhaustive exploration, DESIGN.md §6); not claimed until it runs"
